@@ -813,7 +813,9 @@ impl<'a> Searcher<'a> {
                 let git_repository = match git_repository {
                     Some(repo) => Some(repo),
                     None if apply_gitignore => {
-                        repo = Repository::open(&path).ok();
+                        // the queue holds directories of any depth: look for the repository a directory
+                        // lies in, not only for one that starts exactly there (the root is in none)
+                        repo = Repository::discover(&path).ok();
                         repo.as_ref()
                     },
                     _ => None,
